@@ -1,3 +1,4 @@
+KNOWN_MUST_MATCH_MODEL = True
 STREAMS = ["c08", "c08gw"]
 RULE = ("packet sequences (setup exchange + DATA packets with payload sizes around 0, 1, 4086-4088, 4095-4097, 8183-8185, ... + "
         "keep-alives + close) delivered (0) one packet per read, (1) with one cut, (2) two cuts inside a packet, (3) 2..n packets "
